@@ -262,6 +262,91 @@ theorem partial_absorbed_sources (sig R : USig) (n : Nat) (kw : List (Nat × Nat
     rw [hk] at f5
     simp [e] at f5
 
+private theorem nodup_names_inj {l : List Param} (h : (names l).Nodup) {p q : Param} (hp : p ∈ l) (hq : q ∈ l)
+    (e : p.name = q.name) : p = q := by
+  induction l with
+  | nil => cases hp
+  | cons a t ih =>
+    simp only [names_cons, List.nodup_cons] at h
+    simp only [List.mem_cons] at hp hq
+    rcases hp with rfl | hp
+    · rcases hq with rfl | hq
+      · rfl
+      · exact absurd (by rw [e]; exact mem_names_of_mem hq) h.1
+    · rcases hq with rfl | hq
+      · exact absurd (by rw [← e]; exact mem_names_of_mem hp) h.1
+      · exact ih h.2 hp hq
+
+/-- (finding D51, repaired) a keyword named like the signature's own `*args` or `**kwargs` — which only
+    `**kwargs` can take and which no parameter list can show — is absorbed silently: retrieval succeeds
+    and the parameters are those of f, for every well-formed f that has `**kwargs` -/
+theorem partial_star_keyword (sig : USig) (v pobj : Nat) (k : Param) (hwf : WF sig.params)
+    (hk : (sortParams sig).va = some k ∨ (sortParams sig).vk = some k)
+    (hvk : (sortParams sig).vk.isSome = true) :
+    ∃ R, maskPartial sig 0 [(k.name, v)] pobj = .ok R ∧ R.params = sig.params := by
+  have hs := sortParams_swf hwf
+  have hall := sortParams_all hwf
+  have hvalid : validate sig.params = .ok () := by
+    have := hwf.1
+    unfold validOk at this
+    cases h : validate sig.params with
+    | ok u => rfl
+    | error e => rw [h] at this; cases this
+  rw [partial_eq]
+  generalize sortParams sig = s at *
+  have hnd := hs.nd
+  have hkall : k ∈ s.all := by
+    rcases hk with h | h <;> simp [Sorted.all, h]
+  have hkk : k.kind = .vp ∨ k.kind = .vk := by
+    rcases hk with h | h
+    · exact Or.inl (hs.bk.va k h)
+    · exact Or.inr (hs.bk.vk k h)
+  -- the name of a star parameter is not the name of a positional-or-keyword / keyword-only one
+  have hp1 : k.name ∉ names s.pok := by
+    intro hm
+    obtain ⟨q, hq, hqn⟩ := mem_names.1 hm
+    have hqk := hs.bk.pok q hq
+    have hqall : q ∈ s.all := by simp [Sorted.all, hq]
+    have : q = k := nodup_names_inj hnd hqall hkall hqn
+    subst this
+    rcases hkk with h | h <;> rw [hqk] at h <;> cases h
+  have hp2 : k.name ∉ names s.kwo := by
+    intro hm
+    obtain ⟨q, hq, hqn⟩ := mem_names.1 hm
+    have hqk := hs.bk.kwo q hq
+    have hqall : q ∈ s.all := by simp [Sorted.all, hq]
+    have : q = k := nodup_names_inj hnd hqall hkall hqn
+    subst this
+    rcases hkk with h | h <;> rw [hqk] at h <;> cases h
+  have hstar : starNamed s.va s.vk k.name = true := by
+    unfold starNamed
+    rcases hk with h | h
+    · simp [h]
+    · simp [h]
+  have hinit : initState s {} [] s.pok =
+      { pok := s.pok, va := s.va, kwo := s.kwo, src := s.src, consumed := [], byName := s.pok } := by
+    simp [initState, removeFromSrc]
+  have hvn : s.vk.isNone = false := by
+    cases hv : s.vk with
+    | none => rw [hv] at hvk; cases hvk
+    | some _ => rfl
+  have hstep : maskNames s.vk (initState s {} [] s.pok) (partNames [(k.name, v)] pobj) =
+      .ok { pok := s.pok, va := s.va, kwo := s.kwo, src := s.src, consumed := [k.name], byName := s.pok } := by
+    rw [hinit]
+    simp only [partNames, List.map_cons, List.map_nil, maskNames, bind, Except.bind]
+    rw [maskName_part]
+    simp only [List.contains_nil, Bool.false_eq_true, if_false, pget_eq_none.2 hp1, pget_eq_none.2 hp2, hvn, hstar,
+      if_true, List.nil_append]
+  have hpre : prelude s 0 {} = .ok ([], s.pos, s.pok) := by
+    simp [prelude, pure, Except.pure]
+  rw [hpre]
+  simp only
+  rw [hstep]
+  simp only
+  simp only [Sorted.all] at hall
+  simp only [applyParams, Sorted.all, bind, Except.bind, pure, Except.pure, hall, hvalid]
+  exact ⟨_, rfl, rfl⟩
+
 /-! non-vacuity -/
 def exP : USig :=
   { params := [⟨1, .pk, none, none, .empty⟩, ⟨2, .pk, some 1, none, .empty⟩, ⟨11, .vp, none, none, .empty⟩,
@@ -321,5 +406,10 @@ example : ∃ R, maskPartial exP 0 [(1, 4), (11, 5)] 8 = .ok R ∧ names R.param
   ⟨_, rfl, by decide⟩
 example : ∃ R, maskPartial exP 0 [(11, 5)] 8 = .ok R ∧ R.params = exP.params := ⟨_, rfl, by decide⟩
 example : ∃ R, maskPartial exP 0 [(12, 5)] 8 = .ok R ∧ R.params = exP.params := ⟨_, rfl, by decide⟩
+-- `partial_star_keyword` on the same instance (its hypotheses are met: 12 is `**kw` of exP, 11 its `*args`)
+example : ∃ R, maskPartial exP 0 [(12, 5)] 8 = .ok R ∧ R.params = exP.params :=
+  partial_star_keyword exP 5 8 ⟨12, .vk, none, none, .empty⟩ (by decide) (Or.inr rfl) rfl
+example : ∃ R, maskPartial exP 0 [(11, 5)] 8 = .ok R ∧ R.params = exP.params :=
+  partial_star_keyword exP 5 8 ⟨11, .vp, none, none, .empty⟩ (by decide) (Or.inl rfl) rfl
 
 end SV
